@@ -29,8 +29,8 @@ from fractions import Fraction
 from vf import gen, refsem
 from vf.c11_lib import (
     BIGPOW_NC_MAX, NotInFragment, bigpow, box_for, expand_nf, flatten_nf, fold_nf, history_pool,
-    in_collector_fragment, is_closed, is_polynomial, is_rational, max_exponent, nc_eval, poly4,
-    rename, rf_chain4, rf_depth2, rf_depth3, rf_value, xeval,
+    in_collector_fragment, is_closed, is_polynomial, is_rational, max_exponent, nc_eval,
+    param_inputs, poly4, rename, rf_chain4, rf_depth2, rf_depth3, rf_value, xeval,
 )
 from vf.envs import SPECIAL_NAMES, base_env
 from vf.exact import NCPoly
@@ -75,7 +75,17 @@ NC_REWRITERS = ("flatten", "fold")
 # configurations whose result grows exponentially with the exponent (no merging of like terms /
 # coefficients kept as unexpanded sums): only run up to exponent BIGPOW_NC_MAX
 BIGPOW_HEAVY = ("distribute_nc", "distribute_y")
-PARAMETER = {"name": "y"}       # the variable declared a parameter by collect_y / distribute_y
+# collect_<letters> / distribute_<letters>: the variables declared parameters (coefficients); the
+# letters x, y stand for these variable names (the history family renames them)
+PARAMETER = {"x": "x", "y": "y"}
+# the option dimension "parameters" in full: every subset of {x, y}, collector and distributor
+RFP_REWRITERS = ("collect", "collect_x", "collect_y", "collect_xy",
+                 "expand", "distribute_x", "distribute_y", "distribute_xy")
+
+
+def parameter_set(rw):
+    from pymbolic.primitives import Variable
+    return frozenset(Variable(PARAMETER[c]) for c in rw.partition("_")[2])
 
 
 def apply_rewriter(rw, expr):
@@ -84,7 +94,6 @@ def apply_rewriter(rw, expr):
     from pymbolic.mapper.collector import TermCollector
     from pymbolic.mapper.constant_folder import (
         CommutativeConstantFoldingMapper, ConstantFoldingMapper)
-    from pymbolic.primitives import Variable
     if rw == "flatten":
         return pymbolic.flatten(expr)
     if rw == "fold":
@@ -93,12 +102,12 @@ def apply_rewriter(rw, expr):
         return CommutativeConstantFoldingMapper()(expr)
     if rw == "collect":
         return TermCollector()(expr)
-    if rw == "collect_y":
-        return TermCollector({Variable(PARAMETER["name"])})(expr)
+    if rw.startswith("collect_"):
+        return TermCollector(set(parameter_set(rw)))(expr)
     if rw == "expand":
         return pymbolic.expand(expr)
-    if rw == "distribute_y":
-        return pymbolic.distribute(expr, parameters=frozenset([Variable(PARAMETER["name"])]))
+    if rw.startswith("distribute_") and rw != "distribute_nc":
+        return pymbolic.distribute(expr, parameters=parameter_set(rw))
     if rw == "distribute_nc":
         return pymbolic.distribute(expr, commutative=False)
     raise ValueError(rw)
@@ -160,6 +169,28 @@ def _nf(rw, out_spec):
     return None
 
 
+def out_spec(o):
+    """vf.spec.to_spec, except that a keyword-argument mapping keeps the order the node holds it
+    in (to_spec sorts the keys; the reference functions of vf.envs weight keyword arguments by
+    arrival order, so a sorted reading would look like a changed value)."""
+    import numpy as np
+    from immutabledict import immutabledict
+
+    from pymbolic.primitives import Expression
+    from vf.spec import class_tag, node_fields
+    if isinstance(o, Expression):
+        return (class_tag(type(o)), *[out_spec(f) for f in node_fields(o)])
+    if isinstance(o, immutabledict):
+        return ("map", *[(k, out_spec(v)) for k, v in o.items()])
+    if isinstance(o, tuple):
+        return ("tuple", *[out_spec(c) for c in o])
+    if isinstance(o, list):
+        return ("list", *[out_spec(c) for c in o])
+    if isinstance(o, np.ndarray):
+        return ("array", tuple(o.shape), *[out_spec(o[i]) for i in np.ndindex(o.shape)])
+    return to_spec(o)
+
+
 def _run(rw, spec):
     """-> (outcome of the rewriter, output spec or None)"""
     try:
@@ -169,7 +200,7 @@ def _run(rw, spec):
     o = refsem.outcome(apply_rewriter, rw, expr)
     if o[0] == "err":
         return o, None
-    return o, to_spec(o[1])
+    return o, out_spec(o[1])
 
 
 # {{{ rf mode
@@ -228,7 +259,7 @@ def judge_rf(rw, spec):
     if o is None:
         return None, "", False
     if o[0] == "err":
-        if rw in ("collect", "collect_y") and not in_collector_fragment(spec) \
+        if rw.startswith("collect") and not in_collector_fragment(spec) \
                 and o[1] == "RuntimeError":
             return None, "", False          # documented precondition of TermCollector
         return f"{rw}:raises:{o[1]}", f"{rw} raised {o[1]}: {o[2]}", False
@@ -329,8 +360,8 @@ def judge_nc(rw, spec):
 # }}}
 
 
-JUDGES = {"rf": (judge_rf, RF_REWRITERS), "fa": (judge_fa, FA_REWRITERS),
-          "nc": (judge_nc, NC_REWRITERS)}
+JUDGES = {"rf": (judge_rf, RF_REWRITERS), "rfp": (judge_rf, RFP_REWRITERS),
+          "fa": (judge_fa, FA_REWRITERS), "nc": (judge_nc, NC_REWRITERS)}
 
 
 # {{{ fa enumerators
@@ -451,6 +482,10 @@ class C11(Check):
             "sums/products beneath a non-sum/product operand) plus deeper polynomial inputs "
             "(products / powers / "
             "differences of sums) plus literal powers 4..9 (thorough 4..13) of four small sums, "
+            "and (rf-params) sums of monomials written with explicit power factors of both "
+            "variables, "
+            "their squares and products with a binomial, x TermCollector and distribute under "
+            "every parameter subset of {x, y}; the other rf families "
             "each x 8 rewriter configurations (flatten, ConstantFolding, "
             "CommutativeConstantFolding, TermCollector with parameters {} and {y}, expand, "
             "distribute with parameters {y}, distribute non-commutative); fa: flatten and both "
@@ -506,6 +541,7 @@ class C11(Check):
             ("rf-chain4", lambda: (("rf", s) for s in rf_chain4(tier))),
             ("rf-poly4", lambda: (("rf", s) for s in poly4(tier))),
             ("rf-bigpow", lambda: (("rf", s) for s in bigpow(tier))),
+            ("rf-params", lambda: (("rfp", s) for s in param_inputs(tier))),
             ("rf-history", lambda: self.gen_history(tier)),
             ("fa-depth2", lambda: (("fa", s) for s in gen.depth2(EVAL_CTORS, lv))),
             ("fa-kernels", lambda: (("fa", s) for s in
@@ -545,7 +581,7 @@ class C11(Check):
         _, idx, rw1, in1, rw2, in2 = item
         names = {"x": f"hx{idx}", "y": f"hy{idx}"}
         s1, s2 = rename(in1, names), rename(in2, names)
-        PARAMETER["name"] = names["y"]
+        PARAMETER.update(names)
         try:
             what = f"{rw1}({show(canon_vars(in1))}) then {rw2}({show(canon_vars(in2))})"
             k1, d1, _ = judge_rf(rw1, s1)
@@ -565,7 +601,7 @@ class C11(Check):
                        f"{rw1} gave {show(out1) if out1 else out1} before and "
                        f"{show(out1b) if out1b else out1b} after the call of {rw2}")
         finally:
-            PARAMETER["name"] = "y"
+            PARAMETER.update(x="x", y="y")
         return r
 
     def check_item(self, family, item, tier):
